@@ -372,6 +372,53 @@ def handle (sess : Sess) (rep : Report) (ln : Nat) (toks : List String) (obs : S
         ({ sess with model := none, mon := mon },
          if sess.model.isSome then { rep.msg s!"DIVERGE line={ln} model={shown.take 400} impl={obs.take 400}" with diverged := rep.diverged + 1 } else rep)
     | _, _ => (sess, rep.msg s!"BAD line={ln}")
+  | "scsdone" :: rest =>
+    -- a deadline-exceeded completion decides about a refresh while the report that completes the previous
+    -- refresh is being processed: the outcome must be that of one of the two sequential orders (C07: no
+    -- refresh within the window that starts at the swap)
+    if !sess.active then (sess, rep.bump "pool.skipped_after_divergence") else
+    let a := args rest
+    match (arg a "call").toNat?, (arg a "sc").toNat? with
+    | some call, some sc =>
+      if obs == "bad-op" then (sess, rep) else
+      let opDone : Op := .done call .deClient { key := "", keys := [] }
+      let opScs : Op := .scs sc .ready (orderOf obs)
+      let parts := obs.splitOn " ; "
+      let rep := rep.bump "pool.stale_refresh_decision_across_swap"
+      let explain (first second : Op) : Option (St × St × List String × List String × String) :=
+        match sess.model with
+        | none => none
+        | some s =>
+          let (s1, e1) := step s first
+          let (s2, e2) := step s1 second
+          let strs1 := e1.map evStr
+          let strs2 := e2.map evStr
+          let line := " ; ".intercalate ((strs1.filter (· != "ok")) ++ (strs2.filter (· != "ok")) ++ ["ok", digest s2])
+          some (s1, s2, strs1, strs2, line)
+      let sd := explain opScs opDone
+      let ds := explain opDone opScs
+      let ok (x : Option (St × St × List String × List String × String)) : Bool :=
+        match x with | some (_, _, _, _, line) => line == obs | none => false
+      let chosen := if ok sd then some (true, sd) else if ok ds then some (false, ds) else none
+      let feed (mon : MonState) (rep : Report) (op1 op2 : Op) (evs1 evs2 : List String) (mid : Option ImplView) : MonState × Report :=
+        let (mon, fails1, hits1) := mon.observe op1 evs1 mid
+        let (mon, fails2, hits2) := mon.observe op2 evs2 (parseDigest obs)
+        let rep := (fails1 ++ fails2).foldl (fun rep (p, c) =>
+          { rep.msg s!"MONITOR property={p} clause={c} line={ln}" with monitorFails := rep.monitorFails + 1 }) rep
+        (mon, (hits1 ++ hits2).foldl (fun rep h => rep.bump h) rep)
+      match chosen with
+      | some (scsFirst, some (s1, s2, strs1, strs2, _)) =>
+        let (o1, o2) := if scsFirst then (opScs, opDone) else (opDone, opScs)
+        let (mon, rep) := feed sess.mon rep o1 o2 strs1 strs2 (parseDigest (digest s1))
+        ({ sess with model := some s2, mon := mon }, rep)
+      | _ =>
+        -- no order explains it: the monitors see the report (with all events) and then the completion
+        let evs := parts.filter fun e => !(e.startsWith "dg ") && e != "ok"
+        let (mon, rep) := feed sess.mon rep opScs opDone (evs ++ ["ok"]) ["ok"] none
+        let shown := match sd with | some (_, _, _, _, line) => line | none => "(model lost)"
+        ({ sess with model := none, mon := mon },
+         if sess.model.isSome then { rep.msg s!"DIVERGE line={ln} model={shown.take 400} impl={obs.take 400}" with diverged := rep.diverged + 1 } else rep)
+    | _, _ => (sess, rep.msg s!"BAD line={ln}")
   | "done2" :: rest =>
     -- two completions with a client-side deadline error, run concurrently by the harness while it
     -- stalls the balancer lock: the model must explain the outcome by some order of two atomic
